@@ -2,6 +2,7 @@
 
 G engine: wrapped programs x cleanup / except / else programs x adaptive driver scripts; library wrapper
 vs reference generators written with the plain Python statements (cleanup skipped when closed).
+finalize_decorator additionally: one decoration, the decorated function used 2 and 3 times in sequence.
 """
 
 import itertools
@@ -22,6 +23,16 @@ BOUNDS = {
     "quick": {"fin": [(4, False, 4, AUX_SMALL)], "cont": [(3, False, 4, AUX_SMALL)]},
     "thorough": {"fin": [(4, False, 5, AUX_FULL), (5, True, 3, AUX_FULL)], "cont": [(3, False, 4, AUX_FULL), (4, True, 3, AUX_SMALL)]},
 }
+# finalize_decorator, ONE decorated function used several times in sequence:
+# tier -> layers (main nodes <= n, uses k, history depth, script depth of the last use, cleanup programs for the generator forms)
+# layers are disjoint in k.  The cleanup callable comes in the REUSE_FORMS.
+REUSE_BOUNDS = {
+    "quick": [(3, 2, 2, 4, AUX_SMALL), (2, 3, 2, 3, AUX_SMALL)],
+    "thorough": [(4, 2, 2, 4, AUX_FULL), (3, 3, 2, 3, AUX_SMALL)],
+}
+REUSE_FORMS = ("genfunc", "callable-object", "listfn", "iterfn")
+AUX_LIST = (Y, ("Seq", (Y, Y)))  # what a function returning a list / an iterator of messages can express
+DRAIN = 16  # send(None) actions appended to a history script; every program of the bound ends well before
 RULE = (
     "G: wrapped programs of the grammar {Y, YF, Seq, Try(except Exception|BaseException/else/finally), Raise, Reraise, Return} with <= N nodes x "
     "cleanup / except / else programs with <= 2 nodes from {Y, raise E3, Y;Y, Y;raise E3} x every adaptive driver script of depth <= D over "
@@ -32,13 +43,20 @@ RULE = (
     "written with plain try/except/else/finally in which cleanup is skipped on GeneratorExit; plus counters: cleanup body entered at most "
     "once, exactly once on every return/raise exit of a script without close/PlanHalt, except and else bodies never both.  Don't-cares "
     "(either reading accepted): whether a thrown PlanHalt counts as 'closed'; whether cleanup runs when close() lands inside the "
-    "except/else plan (the wrapped plan has ended, the wrapper is being closed).  non-trivial = script contains a throw/close or the "
-    "wrapped program contains a Try"
+    "except/else plan (the wrapped plan has ended, the wrapper is being closed).  REUSE: finalize_decorator applied ONCE per execution and the "
+    "decorated function then called k times in sequence (each call driven by its own script, fresh Env per call): the cleanup callable as "
+    "generator function, as callable object returning a generator (cleanup programs as above), as function returning a list and as function "
+    "returning an iterator of messages (cleanup Y and Y;Y); the k-1 earlier uses run every history = leaf of the adaptive script tree of depth <= H "
+    "(over the same 7 actions) continued with send(None) until the plan ends, the last use runs every adaptive script of depth <= D; EVERY use is "
+    "compared (trace, log, counters) with the stateless reference (a fresh try/finally with a fresh cleanup per call).  quick: k=2 with N<=3,H=2,D=4 "
+    "and k=3 with N<=2,H=2,D=3; thorough: k=2 with N<=4,H=2,D=4 (all four cleanup programs) and k=3 with N<=3,H=2,D=3.  "
+    "non-trivial = a script contains a throw/close or the wrapped program contains a Try (reuse: or an earlier use ran the cleanup)"
 )
 ASSUMPTIONS = [
     "except plans return None (the value returned under auto_raise=False after a handled exception is not fixed by the statement)",
     "pause_for_debug=False",
     "exception __context__ is not compared",
+    "reuse: the decorated function is called sequentially (a use has ended or been closed before the next starts); a cleanup callable given as a generator instance (rejected by the API with TypeError) is not exercised",
 ]
 
 
@@ -61,6 +79,10 @@ def describe(tier):
         "bounds": {
             "finalize": [{"program_size": ("=" if ex else "<=") + str(n), "depth": d, "programs": len(_mains(n, ex)), "cleanup_programs": len(aux), "forms": 3} for n, ex, d, aux in b["fin"]],
             "contingency": [{"program_size": ("=" if ex else "<=") + str(n), "depth": d, "programs": len(_mains(n, ex)), "configs": len(_cont_configs(aux))} for n, ex, d, aux in b["cont"]],
+            "finalize_decorator_reuse": [
+                {"program_size": "<=" + str(n), "uses": k, "history_depth": hd, "depth": d, "programs": len(_mains(n)), "cleanup_x_form": len(_reuse_cfgs(aux)), "forms": list(REUSE_FORMS)}
+                for n, k, hd, d, aux in REUSE_BOUNDS[tier]
+            ],
         }
     }
 
@@ -73,6 +95,9 @@ def items(tier, seed):
         for li, (n, ex, _d, _aux) in enumerate(BOUNDS[tier][kind]):
             total = len(_mains(n, ex))
             out.extend({"tier": tier, "kind": kind, "layer": li, "lo": lo, "hi": min(total, lo + size)} for lo in range(0, total, size))
+    total = len(_reuse_units(tier))
+    size = 12 if tier == "quick" else 8
+    out.extend({"tier": tier, "kind": "reuse", "lo": lo, "hi": min(total, lo + size)} for lo in range(0, total, size))
     return out
 
 
@@ -209,7 +234,9 @@ def _where(obs):
     return "main"
 
 
-def _judge(case, script, oimp, orefs_fn, prefix_log=()):
+def _judge(case, script, oimp, orefs_fn, prefix_log=(), label=None, count_f=None):
+    """``label`` replaces the entry point in the signatures (reuse cases); ``count_f(obs)`` counts the cleanup runs when the
+    cleanup callable cannot log its own entry (functions returning a list / an iterator)."""
     out = []
     entry = case[0]
     special = any(a == G.CLOSE or a == G.THROW_HALT for a in script)
@@ -229,22 +256,22 @@ def _judge(case, script, oimp, orefs_fn, prefix_log=()):
         out.append(
             (
                 "differs-from-try-statement",
-                f"trace|{entry}|{_cfg_str(case)}|last={lastname}@{_where(oref)}|ref={oref.kind()}|impl={oimp.kind()}|diff={what}",
+                f"trace|{label or entry}|{_cfg_str(case)}|last={lastname}@{_where(oref)}|ref={oref.kind()}|impl={oimp.kind()}|diff={what}",
                 f"ref={oref.steps[-2:]!r} log={oref.log[-3:]!r} impl={oimp.steps[-2:]!r} log={oimp.log[-3:]!r}",
             )
         )
     # counters on the implementation's own log
-    nf = sum(1 for r in oimp.log if r[0] == "F-enter")
+    nf = count_f(oimp) if count_f is not None else sum(1 for r in oimp.log if r[0] == "F-enter")
     nx = sum(1 for r in oimp.log if r[0] == "X-enter")
     nl = sum(1 for r in oimp.log if r[0] == "L-enter")
     has_final = case[2][0] is not None if entry != "contingency_wrapper" else case[2][2] is not None
     if nf > 1 or nx > 1 or nl > 1 or (nx and nl):
-        out.append(("arm-entered-twice", f"count|{entry}|{_cfg_str(case)}|F={nf}|X={nx}|L={nl}", f"cleanup entered {nf}x, except {nx}x, else {nl}x"))
+        out.append(("arm-entered-twice", f"count|{label or entry}|{_cfg_str(case)}|F={nf}|X={nx}|L={nl}", f"cleanup entered {nf}x, except {nx}x, else {nl}x"))
     elif has_final and not special and oimp.steps[-1][0] in ("return", "raise") and nf != 1:
-        out.append(("cleanup-not-run", f"count|{entry}|{_cfg_str(case)}|F=0|exit={oimp.kind()}", f"exit {oimp.steps[-1]!r} without running the cleanup plan"))
+        out.append(("cleanup-not-run", f"count|{label or entry}|{_cfg_str(case)}|F=0|exit={oimp.kind()}", f"exit {oimp.steps[-1]!r} without running the cleanup plan"))
     elif has_final and oimp.steps[-1] == ("closed", None) and not any(r[0] in ("F-enter", "X-enter", "L-enter") for r in prefix_log) and nf != 0:
         # (a wrapped plan that itself yields or raises while being closed has not been 'closed': Python reports an error, try/finally runs)
-        out.append(("cleanup-on-close", f"count|{entry}|{_cfg_str(case)}|F={nf}|close@main", "cleanup plan entered although the wrapped plan was closed"))
+        out.append(("cleanup-on-close", f"count|{label or entry}|{_cfg_str(case)}|F={nf}|close@main", "cleanup plan entered although the wrapped plan was closed"))
     return out, resolved
 
 
@@ -283,6 +310,219 @@ def _check(t, case, depth, nt_prog):
                 stack.append((s, oimp.log))
 
 
+# ---- finalize_decorator: the same decorated function used k times ------------------------------------
+
+
+class _Holder:
+    """The cleanup callable outlives one execution of the decorated plan: it logs to whatever Env is current."""
+
+    env = None
+
+
+class _CallableObject:
+    def __init__(self, f):
+        self._f = f
+
+    def __call__(self):
+        return self._f()
+
+
+def _reuse_cleanup(holder, fin, form):
+    """The cleanup callable handed to finalize_decorator (ONE object for all uses) in one of the REUSE_FORMS."""
+    from bluesky.utils import Msg
+
+    if form in ("genfunc", "callable-object"):
+        f = G.compile_program(fin, "f")
+
+        def arm():
+            holder.env.rec("F-enter")
+            return (yield from f(holder.env))
+
+        return arm if form == "genfunc" else _CallableObject(arm)
+    tags = ["f0"] if fin == Y else ["f0", "f1"]
+
+    def listfn():
+        return [Msg(t, None) for t in tags]  # fresh, unregistered messages: labelled in first-seen order by each use's Env
+
+    if form == "listfn":
+        return listfn
+    return lambda: iter(listfn())
+
+
+def _reuse_ref_final(holder, fin, form):
+    """generator FUNCTION with the meaning of the cleanup callable, for the plain-statement reference."""
+    c = _reuse_cleanup(holder, fin, form)
+    if form in ("genfunc", "callable-object"):
+        return c
+
+    def gen():
+        for m in c():
+            yield m
+
+    return gen
+
+
+def _count_f0(obs):
+    return sum(1 for st in obs.steps if st[0] == "yield" and st[1][2] == "f0")
+
+
+class _Reuse:
+    """One (main, cleanup, form): runs of the real decorator with ONE decoration per execution, references per single use."""
+
+    def __init__(self, main, fin, form):
+        self.main, self.fin, self.form = main, fin, form
+        self.fm = G.compile_program(main, "a")
+        self.case1 = ("finalize_decorator", main, (fin,))
+        self.count_f = None if form in ("genfunc", "callable-object") else _count_f0
+        self._refcache = {}
+
+    def run_impl(self, scripts):
+        """scripts: the k scripts, one per use (already drained where wanted) -> list of Obs, one per use."""
+        import bluesky.preprocessors as bpp
+
+        holder = _Holder()
+        decorated = bpp.finalize_decorator(_reuse_cleanup(holder, self.fin, self.form))(self.fm)
+        out = []
+        for s in scripts:
+            env = G.Env()
+            holder.env = env
+            out.append(G.run_script(decorated, s, env))
+        return out
+
+    def run_ref(self, script, variant=0, cached=True):
+        """The reference has no state: every use is a fresh try/finally around a fresh plan with a fresh cleanup."""
+        key = (script, variant)
+        o = self._refcache.get(key) if cached else None
+        if o is None:
+            holder = _Holder()
+            final = _reuse_ref_final(holder, self.fin, self.form)
+
+            def factory(env):
+                holder.env = env
+                return ref_finalize(self.fm(env), final, *VARIANTS_FIN[variant])
+
+            o = G.run_script(factory, script)
+            if cached:
+                if len(self._refcache) > 20000:
+                    self._refcache.clear()
+                self._refcache[key] = o
+        return o
+
+    def plog(self, obs):
+        """impl log of a prefix, with the cleanup entries made visible for the forms that cannot log them"""
+        if self.count_f is None:
+            return obs.log
+        return obs.log + (("F-enter",),) * self.count_f(obs)
+
+    def histories(self, depth):
+        """Leaves of the adaptive tree (on the reference) of depth <= ``depth``, each then drained with send(None)."""
+        out = []
+        stack = [()]
+        while stack:
+            script = stack.pop()
+            for a in G.FIRST_ACTIONS if not script else G.ACTIONS:
+                s = script + (a,)
+                o = self.run_ref(s)
+                if not o.alive:
+                    out.append(s)
+                elif len(s) >= depth:
+                    out.append(s + (G.SEND_NONE,) * DRAIN)
+                else:
+                    stack.append(s)
+        return sorted(out, key=repr)
+
+    def judge(self, hist, script, obs, prefix_log, cached=True):
+        """Every use against the reference.  -> (violations [(rule, sig, detail)], resolved, n reference runs)"""
+        k = len(hist) + 1
+        for i, (s, o) in enumerate(zip(hist + (script,), obs)):
+            last = i == k - 1
+            if not last and o.alive:
+                return [("harness", "drain-too-short", f"use {i + 1} still alive after the drain")], False, 0
+            label = f"finalize_decorator/reuse|form={self.form}|use={i + 1}of{k}"
+            eff = _effective(s, o)
+            vs, resolved = _judge(self.case1, eff, o, lambda v, s=s: self.run_ref(s, v, cached), prefix_log if last else (), label=label, count_f=self.count_f)
+            if not last:
+                # the prefix log of a history use is not carried: its close-inside-the-cleanup don't-care is judged in the k=1 entry
+                vs = [v for v in vs if v[0] != "cleanup-on-close"]
+            if vs or last:
+                return vs, resolved, i + 1
+        return [], False, k
+
+
+def _effective(script, obs):
+    """the actions that were actually delivered (a drained history script ends with the generator)"""
+    return script[: max(1, len(obs.steps))]
+
+
+def _check_reuse(t, r, k, hdepth, depth):
+    nt_prog = G.has(r.main, "Try")
+    hs = r.histories(hdepth)
+    for hist in itertools.product(hs, repeat=k - 1):
+        case = ("finalize_decorator/reuse", r.main, (r.fin, r.form, hist))
+        stack = [((), ())]
+        while stack:
+            script, plog = stack.pop()
+            if len(script) >= depth:
+                continue
+            for a in G.FIRST_ACTIONS if not script else G.ACTIONS:
+                s = script + (a,)
+                obs = r.run_impl(hist + (s,))
+                vs, resolved, nref = r.judge(hist, s, obs, plog)
+                if vs:
+                    # every violation is re-executed before it is reported
+                    obs2 = r.run_impl(hist + (s,))
+                    vs2, resolved, _ = r.judge(hist, s, obs2, plog, cached=False)
+                    if {v[1] for v in vs} != {v[1] for v in vs2}:
+                        t.extra["unconfirmed_mismatches"] = t.extra.get("unconfirmed_mismatches", 0) + 1
+                        vs = [v for v in vs2 if v[1] in {x[1] for x in vs}]
+                        obs = obs2
+                olast = obs[-1]
+                if any(v[0] == "harness" for v in vs):
+                    t.extra["caps_hit"] += 1
+                    vs = []
+                nt = nt_prog or G.script_nontrivial(s) or any(G.script_nontrivial(_effective(h, o)) or "F-enter" in [x[0] for x in r.plog(o)] for h, o in zip(hist, obs))
+                t.case(
+                    (case, s),
+                    tuple(o.key() for o in obs),
+                    nt,
+                    f"finalize_decorator/reuse{k}:{olast.kind()}" + (":dontcare" if resolved else ""),
+                    steps=sum(len(o.steps) for o in obs) + len(s),
+                    evaluations=k + 1,
+                )
+                for rule, sig, detail in vs:
+                    t.violation(rule, f"finalize_decorator used {k}x form={r.form} main={r.main!r} cleanup={r.fin!r} history=[{'; '.join(G.script_str(_trim(h)) for h in hist)}] script=[{G.script_str(s)}] {detail}", sig, case=G.to_jsonable(case), script=G.to_jsonable(s))
+                if vs:
+                    continue
+                if olast.alive:
+                    stack.append((s, r.plog(olast)))
+
+
+def _trim(h):
+    """history script without the drain tail beyond one send (for messages only)"""
+    n = len(h)
+    while n > 1 and h[n - 1] == G.SEND_NONE and h[n - 2] == G.SEND_NONE and n > len(h) - DRAIN + 1:
+        n -= 1
+    return h[:n]
+
+
+def _reuse_cfgs(aux):
+    out = []
+    for form in REUSE_FORMS:
+        for fin in aux if form in ("genfunc", "callable-object") else AUX_LIST:
+            out.append((fin, form))
+    return out
+
+
+def _reuse_units(tier):
+    """every (layer, main index, cleanup, form) of the tier, in a fixed order"""
+    out = []
+    for li, (n, _k, _hd, _d, aux) in enumerate(REUSE_BOUNDS[tier]):
+        for mi in range(len(_mains(n))):
+            for fin, form in _reuse_cfgs(aux):
+                out.append((li, mi, fin, form))
+    return out
+
+
 def _cases(item):
     n, ex, d, aux = BOUNDS[item["tier"]][item["kind"]][item["layer"]]
     mains = _mains(n, ex)[item["lo"] : item["hi"]]
@@ -299,6 +539,15 @@ def _cases(item):
 
 def run_item(item):
     t = G.Tally()
+    if item["kind"] == "reuse":
+        layers = REUSE_BOUNDS[item["tier"]]
+        units = _reuse_units(item["tier"])[item["lo"] : item["hi"]]
+        for li, mi, fin, form in units:
+            n, k, hd, d, _aux = layers[li]
+            _check_reuse(t, _Reuse(_mains(n)[mi], fin, form), k, hd, d)
+        li, mi, fin, form = units[0]
+        t.sample({"entry": "finalize_decorator/reuse", "uses": layers[li][1], "main": repr(_mains(layers[li][0])[mi]), "cfg": repr((fin, form))})
+        return t.result()
     first = None
     for case, d in _cases(item):
         first = first or case
@@ -311,6 +560,19 @@ def replay(payload):
     G.quiet()
     case = G.from_jsonable(payload["case"])
     script = G.from_jsonable(payload["script"])
+    if case[0] == "finalize_decorator/reuse":
+        fin, form, hist = case[2]
+        r = _Reuse(case[1], fin, form)
+        obs = r.run_impl(hist + (script,))
+        plog = r.plog(r.run_impl(hist + (script[:-1],))[-1]) if len(script) > 1 else ()
+        vs, _, nref = r.judge(hist, script, obs, plog, cached=False)
+        out = []
+        for rule, sig, d in vs:
+            i = nref - 1
+            oref = r.run_ref((hist + (script,))[i], cached=False)
+            uses = "\n".join(f"use {j + 1}: impl {o.steps!r}\n       {o.log!r}" for j, o in enumerate(obs))
+            out.append({"rule": rule, "signature": sig, "detail": f"{d}\n{uses}\nref (use {i + 1}): {oref.steps!r}\n       {oref.log!r}\nmain:\n{G.pretty(case[1])}"})
+        return out
     impl, refs = _factories(case)
     oimp = G.run_script(impl, script)
     plog = G.run_script(impl, script[:-1]).log if len(script) > 1 else ()
